@@ -86,6 +86,8 @@ class Evaluator:
             return st.ghost_env[name]
         if name in st.env:
             return st.env[name]
+        if self.module is not None and name in self.module.consts:
+            return self.module.consts[name]
         if name in self.repo.consts:
             return self.repo.consts[name]
         if name in ("True", "False", "None"):
